@@ -3,5 +3,6 @@ CONSTANTS
   MaxChains = 2
   Expiries = {2, 3, 4}
   KeyRings = {{1, 2}}
+  GraceBoundByLatest = TRUE
 INVARIANTS Sound Emit
 CHECK_DEADLOCK FALSE
